@@ -111,7 +111,7 @@ class A(Adapter):
     terminate_on_invalid = False
     max_steps = 30
     episode_cap = 120
-    ops = ("state", "step", "judge", "instance", "bounds")
+    ops = ("state", "step", "judge", "instance", "bounds", "spec")
     state_fields = ["grid", "step_count", "agents"]
 
     def configs(self, tier):
@@ -355,6 +355,16 @@ class A(Adapter):
     def synthetic(self, ctx, cfg, env, runner, rng, drv):
         import jax
         import envprops
+
+        # wave 4 (C01; runs inside the C09 / C12 sweeps): the declared specs against the model's obsSpec / actionSpec / rewardSpec /
+        # discountSpec (connector.spec), the reset timestep, the observation arrays against `toNValue`, observation_spec.validate
+        # against (obsSpec cfg).valid, and the invariant SpecInv of the membership theorems on every implementation state of a few
+        # episodes incl. the terminal one (theorems connector_obsSpec_generated, connector_*_obs_valid, connector_specInv_invariant)
+        import wave3_routing as w3
+
+        w3.check_specs(ctx, self, cfg, env, drv)
+        w3.check_reset_and_obs(ctx, self, cfg, env, runner, rng, drv, 2 if ctx.quick else 6, 12 if ctx.quick else 60,
+                               policies=("uniform", "masked", "adversarial"), extra="spec_inv")
 
         n, k = cfg.meta["n"], cfg.meta["k"]
         template, ts0 = runner.reset(jax.random.PRNGKey(int(rng.integers(1 << 31))))
